@@ -448,9 +448,15 @@ def caller_dict_oracle(seed, tier):
     rng = rng_for(seed, 'args-caller-dict')
     kinds = ['upload', 'download', 'copy', 'delete']
     allowed = {k: allowed_names(HIST_KINDS[k]) for k in kinds}
-    for _ in range(60 if tier == 'quick' else 2000):
+    # first, systematically: both checksum configurations x single / multipart x each full-object checksum argument,
+    # an upload carrying it followed by plain uploads through the same dict object
+    planned = [(rcc0, thr0, fo0) for rcc0 in ('when_supported', 'when_required') for thr0 in (100, 5) for fo0 in sorted(FO)]
+    for it_ in range(len(planned) + (150 if tier == 'quick' else 3000)):
         rcc = rng.choice(['when_supported', 'when_required'])
         thr = rng.choice([100, 5])
+        plan = None
+        if it_ < len(planned):
+            rcc, thr, plan = planned[it_]
         fake = FakeS3(request_checksum_calculation=rcc)
         fake.objects[('b', 'k')] = DATA
         fake.objects[('sb', 'sk')] = DATA
@@ -458,9 +464,12 @@ def caller_dict_oracle(seed, tier):
         shared = {}
         hist = []
         try:
-            for _step in range(rng.randrange(1, 5)):
+            for _step in range(3 if plan else rng.randrange(1, 5)):
                 kind = rng.choice(kinds)
                 names = rng.sample(allowed[kind], rng.randrange(0, 4))
+                if plan:
+                    kind = 'upload'
+                    names = [plan] if _step == 0 and plan in allowed['upload'] else []
                 fo = [n for n in names if n in FO]
                 for n in fo[1:]:
                     names.remove(n)
